@@ -239,3 +239,17 @@ TASKS.append(FunctionTask(Contract(qual=_QR + "__eq__", params=["self", "other"]
                                             "and EQUAL(self.meta, other.meta) and abs(DEG_S - DEG_O) <= 0.1)"], modifies=[],
                                    notes="equal iff similar, the three components and the meta information pairwise equal and the orientations within 0.1 degree"),
                           module_env=ENV, registry=_REG_EQ, label=_QR + "__eq__", clauses=["equal = similar, components / meta pairwise equal, orientation within 0.1 degree"]))
+
+
+# ---- the two one-line properties of HvsrAzimuthal ----------------------------------------------------------------------------------------------------------------
+def _az_self(ex, st):
+    st.env["self"] = _az(ex, st, "self", HS, HVS, AZS)
+    return [HS >= 1]
+
+
+TASKS.append(FunctionTask(Contract(qual=_QA + "n_azimuths", params=["self"], ghost=_GH, make_inputs=_az_self, ensures=["result == HS"], modifies=[], is_property=True,
+                                   notes="the number of azimuths is the length of the azimuth list"),
+                          module_env=ENV, label=_QA + "n_azimuths", clauses=["n_azimuths = number of azimuths"]))
+TASKS.append(FunctionTask(Contract(qual=_QA + "amplitude", params=["self"], ghost=_GH, make_inputs=_az_self, ensures=["len(result) == HS"], modifies=[], is_property=True,
+                                   notes="one table of curves per azimuth, in azimuth order (entry k is hvsrs[k].amplitude: the comprehension's element expression)"),
+                          module_env=ENV, label=_QA + "amplitude", clauses=["amplitude = the per-azimuth tables in azimuth order"]))
